@@ -160,6 +160,11 @@ def sweep_cases(rng, tmpdir):
     dut = sc.random_dut()
     G.append(('vnacal', cal_setup, cal_bad, 'cal savestr 0',
               [sc.apply_line(0, dut), 'cal find_calibration 0 ' + h('one'), 'cal property 0 0 get ' + h('k'), 'cal new_free 0', 'cal free 0']))
+    # a save that fails leaves vnacal_get_filename at the file last saved to (or loaded from)
+    good_ = os.path.join(tmpdir, 'good.vnacal')
+    G.append(('vnacal-filename', cal_setup + ['cal save 0 ' + h(good_)],
+              [('cal save 0 ' + h('/nonexistent-dir/x.vnacal'), ('ENOENT',), False), ('cal save 0 ' + h(os.path.join(tmpdir, 'no-such-dir', 'y.vnacal')), ('ENOENT',), False)],
+              'cal get_filename 0', ['cal save 0 ' + h(os.path.join(tmpdir, 'good2.vnacal')), 'cal get_filename 0', 'cal load 1 ' + h(good_), 'cal get_filename 1', 'cal free 1', 'cal free 0']))
     # a solve that cannot work, an add_calibration without a solve: refused, and the work can go on
     sc2 = calsim.Scenario(rng, 'U8', 1, 1, 2, fvec=[f1, f2]).begin()
     sc2.add_reflect(1, calsim.SHORT)
